@@ -313,6 +313,18 @@ def ingredients(d, st, s, nlp, fake, tags):
             continue
         n = min(len(tv), len(pv))
         per = {"control": 1, "control-": 1, "integrator": M * (refine or 1), "integrator_roots": M * d["degree"]}[grid]
+        # the returned time stamps ARE the sampled time: sample(t) on the same grid, entry by entry; on the control
+        # grids they are the control nodes themselves
+        try:
+            tt = np.array(fake.value(st.sample(st.t, grid=grid, **kw)[1])).reshape(-1)
+        except Exception:
+            tt = None
+        if tt is not None and (len(tt) != len(tv) or not NL.close(tt, tv, 1e-10)):
+            vios.append(dict(sig="value:ingredient:stamps:%s" % grid, tags=tags + ["grid=%s" % gtag], detail="time stamps returned with the samples %s differ from the sampled time %s" % (np.round(tv, 6).tolist()[:6], np.round(tt, 6).tolist()[:6])))
+            continue
+        if grid in ("control", "control-") and (len(tv) != N + (grid == "control") or not NL.close(tv, tc[:len(tv)], 1e-10)):
+            vios.append(dict(sig="value:ingredient:stamps:%s" % grid, tags=tags + ["grid=%s" % gtag], detail="time stamps %s are not the control nodes %s" % (np.round(tv, 6).tolist()[:6], np.round(tc, 6).tolist()[:6])))
+            continue
         for i in range(n):
             # interval that owns the i-th sampled point (final node: own entry for control+, last interval otherwise)
             if grid != "integrator_roots" and i == N * per:
